@@ -206,13 +206,27 @@ pub fn strategy(g: Gen) -> impl Strategy<Value = RtCase> {
 
 pub fn large_cases(ctx: &Ctx) -> Vec<RtCase> {
     let n = ctx.tier.pick(8, 64);
-    (0..n)
+    let mut v: Vec<RtCase> = (0..n)
         .map(|i| {
             let internal = 1 + (i % 4) as u8;
             let size = if internal == 3 { 12_000 + 500 * i } else { 20_000 + 5_000 * (i % 9) };
             RtCase { l: logical::large(size, ctx.seed.wrapping_mul(1000) + i as u64, internal), asyncw: i % 3 == 1, open_async: i % 5 == 2 }
         })
-        .collect()
+        .collect();
+    // dense archives: long but compressible directories -> a single root directory with far more than 16384
+    // entries (codecs); uncompressed: root size steered onto the 16 KiB budget edge (2 + 4n bytes)
+    for (k, n) in [20_000usize, 33_000, 50_000].iter().enumerate() {
+        for internal in [2u8, 3, 4] {
+            if ctx.tier == crate::engine::Tier::Quick && (k + usize::from(internal)) % 2 == 1 {
+                continue;
+            }
+            v.push(RtCase { l: logical::dense(*n, ctx.seed + k as u64, internal), asyncw: (k + usize::from(internal)) % 2 == 0, open_async: k == 1 });
+        }
+    }
+    for n in [4063usize, 4064, 4065, 4080, 4095, 4096] {
+        v.push(RtCase { l: logical::dense(n, ctx.seed + n as u64, 1), asyncw: n % 2 == 0, open_async: false });
+    }
+    v
 }
 
 pub fn run(ctx: &Ctx) {
